@@ -1,6 +1,7 @@
 package http
 
 import (
+	"bytes"
 	"context"
 	"encoding/json"
 	"fmt"
@@ -76,6 +77,10 @@ func HttpRequest(client *http.Client, req *http.Request, response any) error {
 		return &oidcErr
 	}
 
+	// a JSON null is no document: it would leave pointer targets nil, which the callers dereference
+	if bytes.Equal(bytes.TrimSpace(body), []byte("null")) {
+		return fmt.Errorf("failed to unmarshal response: unexpected null document")
+	}
 	err = json.Unmarshal(body, response)
 	if err != nil {
 		return fmt.Errorf("failed to unmarshal response: %v %s", err, body)
